@@ -6,8 +6,10 @@ margin, optional queries run right after construction (`pre`), optional later `a
 `Network.addEdge` when the index was made by `Network.createSpatialIndex`), and a list of queries run after them (the
 generators repeat the `pre` queries there: what a query left behind must not change a later answer). `entry` selects
 the front end (the constructor, `TrackCollection.createSpatialIndex(resolution, verbose)` — whose flag lands in the
-constructor's `margin` parameter —, `Network.createSpatialIndex(resolution, margin, verbose)`), `geo` the class of the
-query coordinates (GeoCoords instead of ENUCoords). The Lean model (Model/Grid.lean) is pure: it runs the session as
+constructor's `margin` parameter —, `Network.createSpatialIndex(resolution, margin, verbose)`), `call` the argument
+form of that call (positional, keywords, keywords with defaulted arguments left out: the model then supplies the default
+margin), `geo` the class of the query coordinates (GeoCoords instead of ENUCoords). The oracle judges the index AS BUILT:
+extent, cell sides and dimensions are read back from the object, never derived from the case. The Lean model (Model/Grid.lean) is pure: it runs the session as
 one driver line for the state after construction and one for the state after the later additions. Two scalar modes:
   rat  every float operation of the Python is exact on the case (checked by `exact_case`: the float run of
        the constructor / __getCell is replayed next to a Fraction run and must agree); the model runs on Rat,
@@ -21,6 +23,11 @@ from fractions import Fraction as F
 from engine import Prop, fbits, bitsf, ratstr, err_kind, close
 
 EPS = F(1, 10 ** 7)       # guard (in cell units / relative on distances) of the flt-mode oracle
+
+
+class HarnessError(Exception):
+    """the harness's own plumbing failed (a session it cannot run, internals of the index it cannot read, a consistency
+    check of its own): reported as `{"harness": ...}` by impl(), a correspondence disagreement, NEVER an oracle failure"""
 
 
 def fr(v):
@@ -127,7 +134,9 @@ def exact_case(case):
 
 def _exact_case(case):
     """True when Python's float arithmetic is exact on every operation the scenario performs (then the
-    Rat model applies to the computed values with no gap)"""
+    Rat model applies to the computed values with no gap): the constructor as the CASE describes it (bounding box,
+    margin, resolution) and, on the index it makes, every __getCell / groundDistanceToUnits of the session. Selects the
+    scalar mode of the MODEL run; the oracle judges the index that was actually built (`exact_on_index`)."""
     bb = case_bbox(case)
     if bb is None:
         return True
@@ -150,9 +159,41 @@ def _exact_case(case):
         return iq is None and if_ is None
     if any(F(a) != b for a, b in zip(if_, iq)):
         return False
+    return _exact_on_index(case, if_)
+
+
+_EXACT_IX_CACHE = {}
+
+
+def exact_on_index(case, info):
+    """True when Python's float arithmetic is exact on everything the session computes ON THE INDEX AS BUILT: `info` =
+    (xmin, xmax, ymin, ymax, csize, lsize, dX, dY) read back from the index object, whatever extent / margin / cell size the
+    front end chose. Then the exact oracle (closed last column / row, half-open cells elsewhere, no guard) applies to that
+    index; otherwise the guarded one does."""
+    key = (json.dumps(case, sort_keys=True), tuple(info))
+    v = _EXACT_IX_CACHE.get(key)
+    if v is None:
+        if len(_EXACT_IX_CACHE) > 20000:
+            _EXACT_IX_CACHE.clear()
+        v = _EXACT_IX_CACHE[key] = _exact_on_index(case, info)
+    return v
+
+
+def _exact_on_index(case, info):
+    if_ = (float(info[0]), float(info[1]), float(info[2]), float(info[3]), int(info[4]), int(info[5]), float(info[6]), float(info[7]))
+    if not all(math.isfinite(v) for v in if_):
+        return False
+    iq = tuple(F(v) for v in if_)
     if not (small_dyadic(iq[6]) and small_dyadic(iq[7]) and all(small_dyadic(v) for v in iq[:4])):
         return False
+    if iq[6] <= 0 or iq[7] <= 0 or iq[4] < 1 or iq[5] < 1:
+        return False
+    # the cells tile the extent exactly (an axis of zero length has its one column / row)
+    if not (iq[1] - iq[0] == iq[4] * iq[6] or iq[1] == iq[0]) or not (iq[3] - iq[2] == iq[5] * iq[7] or iq[3] == iq[2]):
+        return False
     for p in case_points(case):
+        if not (small_dyadic(fr(p[0])) and small_dyadic(fr(p[1]))):
+            return False
         cq = twin_cell(iq, fr(p[0]), fr(p[1]))
         cf = twin_cell(if_, fl(p[0]), fl(p[1]))
         if (cq is None) != (cf is None):
@@ -301,6 +342,7 @@ class P(Prop):
         (M, "TV.C08.cells_complete", "a point P of segment [c1,c2] in cell (i,j) — i <= Px < i+1, or i = csize-1 and i <= Px <= csize (last column closed on the upper border), same for j — implies (i,j) in __cellsCrossSegment(c1,c2), segments lying on the upper border included"),
         (M, "TV.C08.constructor_returns", "SpatialIndex(collection,res,margin) does not raise for a non-empty collection, margin >= 0 (0 included: vertices on the upper border), default or positive cell size, any bounding box (flat, single point, shorter than a cell)"),
         (M, "TV.C08.collection_create_index", "TrackCollection.createSpatialIndex(resolution, verbose) is SpatialIndex(collection, resolution, margin) with margin = 1 (verbose=True) or 0 (verbose=False): the flag lands in the constructor's margin parameter; both are >= 0, the call returns and every other theorem applies"),
+        (M, "TV.C08.default_margin_create_index", "argument handling of SpatialIndex(collection, resolution=None, margin=0.05, verbose=True) and Network.createSpatialIndex(resolution=None, margin=0.05, verbose=True): a call that leaves the margin out builds the index of margin 1/20, a call with margin m >= 0 that of margin m; the call returns and every other theorem applies"),
         (M, "TV.C08.getCell_min_is_identity", "on every index on which nothing raises, __getCell as executed (idx = min((x-xmin)/dX, csize), idy likewise) returns the affine fractional indices: the min only acts on floating-point rounding"),
         (M, "TV.C08.extent_point_cell", "on a built index every point of the closed extent has a cell (min(floor idx, csize-1), min(floor idy, lsize-1)) inside the grid whose closed square contains it; only the last column/row is closed on the upper side"),
         (M, "TV.C08.index_complete", "after SpatialIndex(collection,res,margin>=0), every point of every segment of feature k is inside the extent and the cell containing it lists k (upper-border vertices included)"),
@@ -314,6 +356,7 @@ class P(Prop):
         (M, "TV.C08.neighborhood_finds_registered", "on any index on which nothing raises (built, or built and then extended by addFeature / Network.addEdge), neighborhood(q, unit=groundDistanceToUnits(d)) returns every feature listed in the cell of a point of the extent within distance d of q: the answer depends on the grid as it is now only"),
         (M, "TV.C08.neighborhood_complete", "groundDistanceToUnits(d) and neighborhood(q, unit=groundDistanceToUnits(d)), EVERY q of the closed extent, d >= 0, do not raise and every feature with a point within Euclidean distance d of q is returned"),
         (M, "TV.C08.late_feature_complete", "addFeature(track, num) on an existing index (= Network.addEdge on an indexed network), all vertices inside the extent: returns, keeps extent / dimensions / everything registered before, every point of the track lies in a cell listing num, a point request there and a neighbourhood query from a ground distance d around any q within d of the track return num"),
+        (M, "TV.C08.network_add_edges_complete", "a SEQUENCE of Network.addEdge calls on an indexed network of n edges (running numbers n, n+1, ...), all vertices inside the extent: every call returns, extent / dimensions / everything registered before are kept, and after all of them the k-th new edge is listed under n+k in the cell of each of its points, found by a point request there and by a neighbourhood query from a ground distance d around any q within d of it"),
         (M, "TV.C08.built_index_good", "a built index satisfies the hypotheses (Good, Tiled) of late_feature_complete, which keeps them: the theorem applies to any sequence of later additions"),
         (M, "TV.C08.grid_always_builds", "the repairs 9a44198 and degenerate-extent: default or positive explicit cell size, ANY bounding box (thin, flat, a single point, shorter than the cell size): __init__ reaches the registration loop without raising, with >= 1 column and >= 1 row, positive cell sides, cells tiling every axis of positive length exactly and one column / row on an axis of zero length"),
         (M, "TV.C08.flat_axis_single_column", "on a built index whose extent has zero length along an axis (a straight north-south or east-west track) that axis has one column / row and every point of the extent has index 0 on it"),
@@ -325,7 +368,8 @@ class P(Prop):
         "the unit = -1 incremental searches of neighborhood and the given-unit segment/track neighbourhoods are modelled and compared with the implementation, no theorem is stated about them (the property does not mention them)",
         "later addFeature calls with a vertex OUTSIDE the extent are modelled and compared (the `continue` that keeps a stale coord1 and so registers a chord instead of the two legs), no theorem is stated about them: late_feature_complete is about additions inside the extent",
     ]
-    modelled = ("TrackCollection.createSpatialIndex (its verbose flag becomes the constructor's margin) and Network.createSpatialIndex as front ends, Network.addEdge on an indexed network (= addFeature with the running edge number); "
+    modelled = ("TrackCollection.createSpatialIndex (its verbose flag becomes the constructor's margin) and Network.createSpatialIndex as front ends, the default margin 0.05 of the constructor and of "
+                "Network.createSpatialIndex when the call leaves it out (createIndexArgs), Network.addEdge on an indexed network (networkAddEdges: the registration loop from the running edge number, the numbers are the model's); "
                 "SpatialIndex.__init__ (extent from bbox + margin, explicit and default resolution, one column / row and a non-zero cell side on a degenerate axis), __getCell, "
                 "__cellsCrossSegment (index box clamped to the last column / row), __getCell with its cap min(index, size), __addSegment, addFeature, request (cell/point/segment/track; the point form with the clamped cell), __neighboringcells, "
                 "neighborhood (cell/point/segment/track; unit >= 0 and the incremental unit = -1 search), "
@@ -335,6 +379,9 @@ class P(Prop):
                "the theorems show the model omits nothing, so any superset omits nothing), equality on extent, cell size, units, None-ness and exceptions",
                "sessions: the model is a pure function of (collection, later additions), run once for the state after construction and once for the state after the additions; that the implementation's answers "
                "depend on nothing else (no cache, no state left by earlier queries) is exactly what the correspondence and the oracle test on one object",
+               "oracle: every clause is judged on the index AS BUILT — extent, cell sides and dimensions are read back from the object (xmin..ymax, dX, dY, csize, lsize), whatever margin / resolution the front end "
+               "chose, and the exact (unguarded) oracle is used only when float arithmetic is exact on that geometry; a session the harness cannot run or an index whose internals it cannot read is a harness error "
+               "(correspondence disagreement), never an oracle failure",
                "mode flt: the Float instantiation of the model reproduces Python's doubles operation by operation; "
                "rounding is outside the theorems, the flt-mode oracle keeps a guard of 1e-7 cell around cell borders"]
     rule = ("exhaustive: every segment between points of a half-integer lattice through __cellsCrossSegment (coordinates beyond the 4 x 4 grid included: the clamp), every 2-vertex track of a "
@@ -345,6 +392,7 @@ class P(Prop):
             "(points, segments, tracks, cells, neighbourhoods in units and from ground distances 0..grid size); sessions on one index object: 22 % of the cases add 1-2 features after construction "
             "(addFeature, or Network.addEdge on a network indexed by Network.createSpatialIndex), most of those ask every query both before and after the additions, 20 % ask some query twice; "
             "15 % of the indexes are made by TrackCollection.createSpatialIndex / Network.createSpatialIndex, 10 % of the sessions give query points as GeoCoords; "
+            "argument forms of the front-end call (60 % of the createSpatialIndex calls, 15-20 % of the constructor calls choose among positional, keywords, keywords with defaulted arguments left out); "
             "plus a float stream with random coordinates (margin 0 in 2 cases of 7, half of those with a feature lying on the upper border of the extent and a cell size chosen so that the border index "
             "A / (A / n) rounds above n; a quarter of the query points are feature vertices). non-trivial = the index is built and at "
             "least one feature segment and one query are present")
@@ -377,26 +425,74 @@ class P(Prop):
 
     # ------------------------------------------------------------------ implementation
     def build_index(self, case, coll):
+        """the index of the session through the front end `entry`; `call` is the argument form of the front-end call
+        (`pos` positional, `kw` keywords, `dflt` keywords with every argument that has its default value left out)"""
         res = None if case["res"] is None else (fl(case["res"][0]), fl(case["res"][1]))
         entry = case.get("entry") or "ctor"
+        call = case.get("call") or ("kw" if entry == "ctor" else "pos")
+        if call not in ("pos", "kw", "dflt"):
+            raise HarnessError("unknown call form %r" % (call,))
+        m = fl(case["margin"])
         if entry == "ctor":
-            return self.SI(coll, resolution=res, margin=fl(case["margin"]), verbose=False)
+            if call == "pos":
+                return self.SI(coll, res, m, False)
+            kw = {"resolution": res, "margin": m, "verbose": False}
+            if call == "dflt":
+                if res is None:
+                    del kw["resolution"]
+                if fr(case["margin"]) == F(1, 20):
+                    del kw["margin"]          # 0.05 is the constructor's default margin
+            return self.SI(coll, **kw)
         if case.get("net"):
-            coll.createSpatialIndex(res, fl(case["margin"]), False)
+            if call == "pos":
+                coll.createSpatialIndex(res, m, False)
+            else:
+                kw = {"resolution": res, "margin": m, "verbose": False}
+                if call == "dflt":
+                    if res is None:
+                        del kw["resolution"]
+                    if fr(case["margin"]) == F(1, 20):
+                        del kw["margin"]      # 0.05 is Network.createSpatialIndex's default margin
+                coll.createSpatialIndex(**kw)
         else:
             # createSpatialIndex(resolution, verbose): the flag is what the constructor receives as its margin
             if str(case["margin"]) not in ("0", "1"):
-                raise ValueError("TrackCollection.createSpatialIndex: the margin is the verbose flag")
-            coll.createSpatialIndex(res, verbose=(str(case["margin"]) == "1"))
-        return coll.spatial_index
+                raise HarnessError("TrackCollection.createSpatialIndex: the margin of the case is the verbose flag")
+            flag = str(case["margin"]) == "1"
+            if call == "pos":
+                coll.createSpatialIndex(res, flag)
+            elif call == "dflt" and res is None and flag:
+                coll.createSpatialIndex()
+            elif call == "dflt" and res is None:
+                coll.createSpatialIndex(verbose=flag)
+            elif call == "dflt" and flag:
+                coll.createSpatialIndex(resolution=res)
+            else:
+                coll.createSpatialIndex(resolution=res, verbose=flag)
+        try:
+            si = coll.spatial_index
+        except Exception as e:
+            raise HarnessError("cannot read the index made by createSpatialIndex: %r" % (e,))
+        if si is None:
+            raise HarnessError("createSpatialIndex left no index on the collection")
+        return si
+
+    def read_info(self, si):
+        try:
+            return [float(si.xmin), float(si.xmax), float(si.ymin), float(si.ymax), int(si.csize), int(si.lsize), float(si.dX), float(si.dY)]
+        except Exception as e:
+            raise HarnessError("cannot read extent / cell size / dimensions of the index: %r" % (e,))
 
     def snapshot(self, si):
-        grid = {}
-        for i, col in enumerate(si.grid):
-            for j, c in enumerate(col):
-                if c:
-                    grid["%d:%d" % (i, j)] = sorted(c)
-        return grid
+        try:
+            grid = {}
+            for i, col in enumerate(si.grid):
+                for j, c in enumerate(col):
+                    if c:
+                        grid["%d:%d" % (i, j)] = sorted(c)
+            return grid
+        except Exception as e:
+            raise HarnessError("cannot read the cell contents of the index: %r" % (e,))
 
     def search_cells(self, si, case, queries):
         sc = {}
@@ -414,9 +510,20 @@ class P(Prop):
         return sc
 
     def impl(self, case):
-        coll = self.collection(case)
+        try:
+            return self.run_session(case)
+        except HarnessError as e:
+            return {"harness": str(e)[:300]}
+
+    def run_session(self, case):
+        try:
+            coll = self.collection(case)        # tracks / an un-indexed network from the vertex lists: plumbing
+        except BaseException as e:
+            if isinstance(e, KeyboardInterrupt):
+                raise
+            raise HarnessError("cannot build the collection of the case: %r" % (e,))
         si = self.build_index(case, coll)
-        info = [float(si.xmin), float(si.xmax), float(si.ymin), float(si.ymax), si.csize, si.lsize, float(si.dX), float(si.dY)]
+        info = self.read_info(si)
         geo = bool(case.get("geo"))
         out = {}
         pre = case.get("pre") or []
@@ -430,63 +537,84 @@ class P(Prop):
                     # Network.addEdge on an indexed network registers the new edge in the index under its running number
                     k = coll.getNumberOfEdges()
                     if k != num:
-                        raise ValueError("late edge number %d, the network has %d edges" % (num, k))
+                        raise HarnessError("late edge number %d, the network has %d edges" % (num, k))
                     e = self.Edge("e%d" % k, self.mk(pts))
                     a = self.Node("n%da" % k, self.E(fl(pts[0][0]), fl(pts[0][1]), 0.0))
                     b = self.Node("n%db" % k, self.E(fl(pts[-1][0]), fl(pts[-1][1]), 0.0))
                     coll.addEdge(e, a, b)
                 else:
                     si.addFeature(self.mk(pts), num)
-        except ValueError:
+        except HarnessError:
             raise
         except Exception as e:
             return {"err": err_kind(e), "late": True}
+        # (extent, cell size and dimensions are read again: what the queries below run on)
+        info = self.read_info(si)
         out["info"] = info
         out["grid"] = self.snapshot(si)
         out["q"] = [self.run_query(si, q, geo) for q in case["queries"]]
         out["scells"] = self.search_cells(si, case, case["queries"])
         return out
 
-    def run_query(self, si, q, geo=False):
+    def query_args(self, q, geo=False):
+        """the argument objects of a query (coordinates, tracks): building them is the harness's plumbing"""
         # request / neighborhood accept GeoCoords as well as ENUCoords (getX / getY are lon / lat)
         E = self.G if geo else self.E
+        k = q[0]
+        try:
+            if k in ("pt", "npt", "nd"):
+                return (E(fl(q[1]), fl(q[2]), 0.0),)
+            if k in ("seg", "nseg"):
+                return ([E(fl(q[1]), fl(q[2]), 0.0), E(fl(q[3]), fl(q[4]), 0.0)],)
+            if k == "trk":
+                return (self.mk(q[1]),)
+            if k == "ntrk":
+                return (self.mk(q[2]),)
+            if k == "getcell":
+                return (self.E(fl(q[1]), fl(q[2]), 0.0),)
+            if k in ("cell", "ncell", "units", "cross", "inter"):
+                return ()
+        except Exception as e:
+            raise HarnessError("cannot build the arguments of query %s: %r" % (q, e))
+        raise HarnessError("unknown query kind %r" % (k,))
+
+    def run_query(self, si, q, geo=False):
+        args = self.query_args(q, geo)
         try:
             k = q[0]
             if k == "cell":
                 return sorted(si.request(q[1], q[2]))
-            if k == "pt":
-                return sorted(si.request(E(fl(q[1]), fl(q[2]), 0.0)))
-            if k == "seg":
-                return sorted(si.request([E(fl(q[1]), fl(q[2]), 0.0), E(fl(q[3]), fl(q[4]), 0.0)]))
-            if k == "trk":
-                return sorted(si.request(self.mk(q[1])))
+            if k in ("pt", "seg", "trk"):
+                return sorted(si.request(args[0]))
             if k == "ncell":
                 return sorted(si.neighborhood(q[1], q[2], q[3]))
             if k == "npt":
-                r = si.neighborhood(E(fl(q[1]), fl(q[2]), 0.0), None, q[3])
+                r = si.neighborhood(args[0], None, q[3])
                 return None if r is None else sorted(r)
             if k == "nseg":
-                r = si.neighborhood([E(fl(q[1]), fl(q[2]), 0.0), E(fl(q[3]), fl(q[4]), 0.0)], None, q[5])
+                r = si.neighborhood(args[0], None, q[5])
                 return None if r is None else sorted(r)
             if k == "ntrk":
-                return sorted(si.neighborhood(self.mk(q[2]), None, q[1]))
+                return sorted(si.neighborhood(args[0], None, q[1]))
             if k == "units":
                 return int(si.groundDistanceToUnits(fl(q[1])))
             if k == "nd":
                 u = int(si.groundDistanceToUnits(fl(q[3])))
-                r = si.neighborhood(E(fl(q[1]), fl(q[2]), 0.0), None, u)
+                r = si.neighborhood(args[0], None, u)
                 return {"u": u, "res": None if r is None else sorted(r)}
             if k == "cross":
                 cells = si._SpatialIndex__cellsCrossSegment((fl(q[1]), fl(q[2])), (fl(q[3]), fl(q[4])))
                 return sorted([int(c[0]), int(c[1])] for c in cells)
             if k == "getcell":
-                c = si._SpatialIndex__getCell(self.E(fl(q[1]), fl(q[2]), 0.0))
+                c = si._SpatialIndex__getCell(args[0])
                 return None if c is None else [float(c[0]), float(c[1])]
             if k == "inter":
                 from tracklib.util import isSegmentIntersects
                 v = [fl(x) for x in q[1:]]
                 return int(bool(isSegmentIntersects(v[:4], v[4:])))
-            raise ValueError(k)
+            raise HarnessError("unknown query kind %r" % (k,))
+        except HarnessError:
+            raise
         except BaseException as e:
             if isinstance(e, KeyboardInterrupt):
                 raise
@@ -506,13 +634,17 @@ class P(Prop):
         tr = lambda pts: ";".join("%s,%s" % (num(p[0]), num(p[1])) for p in pts) if pts else "_"
         feats = "|".join(tr(f) for f in case["feats"]) if case["feats"] else "_"
         res = "none" if case["res"] is None else "%s,%s" % (num(case["res"][0]), num(case["res"][1]))
-        if (case.get("entry") or "ctor") == "create" and not case.get("net"):
+        entry = case.get("entry") or "ctor"
+        if entry == "create" and not case.get("net"):
             margin = "tc:%s" % case["margin"]          # TrackCollection.createSpatialIndex(res, verbose)
+        elif case.get("call") == "dflt" and fr(case["margin"]) == F(1, 20):
+            margin = "dflt"                            # the call leaves the margin out: the model supplies the default
         else:
             margin = num(case["margin"])
+        by_network = bool(case.get("net")) and entry == "create"      # Network.addEdge numbers the later edges itself
 
         def line(late_list, queries):
-            late = "|".join("%d@%s" % (n, tr(t)) for n, t in late_list) or "_"
+            late = "|".join(("+@%s" % tr(t)) if by_network else ("%d@%s" % (n, tr(t))) for n, t in late_list) or "_"
             qs = ["info", "grid"]
             for q in queries:
                 k = q[0]
@@ -598,6 +730,8 @@ class P(Prop):
         return out
 
     def compare(self, case, impl_out, model_out):
+        if "harness" in impl_out:
+            return "harness: " + str(impl_out["harness"])
         if ("pre" in impl_out) != ("pre" in model_out):
             return "session: impl=%s model=%s" % (str(impl_out)[:200], str(model_out)[:200])
         if "pre" in impl_out:
@@ -684,16 +818,22 @@ class P(Prop):
         return r
 
     def _failure(self, case, out):
+        if "harness" in out:
+            return None        # the harness could not run the session or read the index: not a statement about the property
         if out.get("late"):
             return None        # a later addFeature call raised: outside the property (compared with the model only)
         if "err" in out:
             return ("construction", None, "index construction raised %s (%s)" % (out["err"], out.get("detail", "")))
-        exact = exact_case(case)
+        # the index AS BUILT is what is judged: extent, cell sides and dimensions are the ones read back from the object
+        # (whatever margin / resolution the front end chose), and so is the choice between the exact and the guarded oracle
+        if not all(math.isfinite(v) for v in out["info"]):
+            return ("grid", None, "degenerate grid %s" % (out["info"],))
         xmin, xmax, ymin, ymax = (F(v) for v in out["info"][:4])
         cs, ls = out["info"][4], out["info"][5]
         dX, dY = F(out["info"][6]), F(out["info"][7])
         if dX <= 0 or dY <= 0 or cs <= 0 or ls <= 0:
             return ("grid", None, "degenerate grid %s" % (out["info"],))
+        exact = exact_on_index(case, out["info"])
         val = fr if exact else (lambda v: F(fl(v)))
         inside = lambda p: xmin <= val(p[0]) <= xmax and ymin <= val(p[1]) <= ymax
         g = lambda p: ((val(p[0]) - xmin) / dX, (val(p[1]) - ymin) / dY)
@@ -702,9 +842,7 @@ class P(Prop):
             i, j = key.split(":")
             grid[(int(i), int(j))] = set(vals)
         feats = [(k, f) for k, f in enumerate(case["feats"])]
-        for p in (p for _, f in feats for p in f):
-            if not inside(p):
-                return ("grid", None, "vertex %s is outside the extent %s" % (p, out["info"][:4]))
+        outside = [p for _, f in feats for p in f if not inside(p)]
         feats += [(n, t) for n, t in late_of(case) if all(inside(p) for p in t)]
         expected = {}
         for k, f in feats:
@@ -731,6 +869,9 @@ class P(Prop):
                 return ("omission", None, "feature %d has a segment through cell (%d,%d) = [%s,%s]x[%s,%s] but is not registered there: "
                         "point queries in that cell omit it" % (min(miss), i, j, float(xmin + i * dX), float(xmin + (i + 1) * dX),
                                                                 float(ymin + j * dY), float(ymin + (j + 1) * dY)))
+        if outside:
+            # (no omission inside the grid was found above: the index still does not cover the features it was built over)
+            return ("grid", None, "vertex %s is outside the extent %s" % (outside[0], out["info"][:4]))
         near_border = lambda c: (not exact) and min(c - math.floor(c), math.floor(c) + 1 - c) < EPS
         for n, (q, r) in enumerate(zip(case["queries"], out["q"])):
             k = q[0]
@@ -940,6 +1081,9 @@ class P(Prop):
             case = {"kind": "lattice", "net": net, "feats": feats, "res": res, "margin": margin, "late": [], "queries": []}
             if entry != "ctor":
                 case["entry"] = entry
+            if rng.random() < (0.15 if entry == "ctor" else 0.6):
+                # argument form of the front-end call: positional, keywords, defaults left out
+                case["call"] = rng.choice(["pos", "kw", "dflt"])
             if rng.random() < 0.1:
                 case["geo"] = True
             tw = exact_twin(case)
@@ -1080,6 +1224,8 @@ class P(Prop):
             case["late"] = [[n0 + k, [P_() for _ in range(rng.randrange(2, 4))]] for k in range(rng.randrange(1, 3))]
         if case["net"] and rng.random() < 0.3:
             case["entry"] = "create"
+        if rng.random() < 0.2:
+            case["call"] = rng.choice(["pos", "kw", "dflt"])
         self.make_session(case, rng)
         return case
 
@@ -1145,7 +1291,7 @@ class P(Prop):
              "net": bool(case.get("net")), "nfeat": len(case["feats"]), "late": bool(case.get("late")),
              "session": ("pre+late" if case.get("pre") and case.get("late") else "pre" if case.get("pre") else "late" if case.get("late") else "-"),
              "entry": ("ctor" if (case.get("entry") or "ctor") == "ctor" else "Network.createSpatialIndex" if case.get("net") else "TrackCollection.createSpatialIndex"),
-             "coords": "Geo" if case.get("geo") else "ENU"}
+             "coords": "Geo" if case.get("geo") else "ENU", "call": case.get("call") or "-"}
         bb = case_bbox(case)
         if bb is not None:
             fx, fy = bb[0] == bb[1], bb[2] == bb[3]
@@ -1178,6 +1324,8 @@ class P(Prop):
             yield dict(case, pre=[])
         if case.get("geo"):
             yield dict(case, geo=False)
+        if case.get("call"):
+            yield {k: v for k, v in case.items() if k != "call"}
         fs = case["feats"]
         if len(fs) > 1:
             for k in range(len(fs)):
